@@ -34,8 +34,11 @@ def parse(text: str, statement_stream_processor: "StatementStreamProcessor", *, 
         pr._flush_comment()  # pylint: disable=protected-access
     except _error.Error as ex:
         # Inject error location. If this exception is being propagated from a recursive instance, it already has
-        # its error location populated, so nothing will happen here.
-        ex.set_error_location_if_unknown(line=pr.current_line_number)
+        # its error location populated, so nothing will happen here. If it names a file already but no line (e.g.,
+        # it was detected after a nested definition had been parsed), a line number of this text does not belong
+        # to that file, so it is not attached.
+        if ex.path is None:
+            ex.set_error_location_if_unknown(line=pr.current_line_number)
         raise ex
     except parsimonious.ParseError as ex:
         raise DSDLSyntaxError("Syntax error", line=int(ex.line())) from None  # type: ignore
@@ -143,6 +146,7 @@ class _ParseTreeProcessor(parsimonious.NodeVisitor):
         self._current_line_number = 1  # Lines are numbered from one
         self._comment = ""
         self._comment_is_header = True
+        self._last_attribute_line_number = 0  # The line of the attribute statement that awaits its doc comment.
         self._strict = bool(strict)
         super().__init__()
 
@@ -156,7 +160,13 @@ class _ParseTreeProcessor(parsimonious.NodeVisitor):
         if self._comment_is_header:
             self._statement_stream_processor.on_header_comment(self._comment)
         else:
-            self._statement_stream_processor.on_attribute_comment(self._comment)
+            try:
+                self._statement_stream_processor.on_attribute_comment(self._comment)
+            except _error.Error as ex:
+                # The attribute is committed lazily, together with its doc comment, when a later line is visited;
+                # an error raised at that point belongs to the line of the attribute statement, not to this one.
+                ex.set_error_location_if_unknown(line=self._last_attribute_line_number or None)
+                raise
         self._comment_is_header = False
         self._comment = ""
 
@@ -191,18 +201,21 @@ class _ParseTreeProcessor(parsimonious.NodeVisitor):
         assert isinstance(exp, _expression.Any)
         self._flush_comment()
         self._statement_stream_processor.on_constant(constant_type, name, exp)
+        self._last_attribute_line_number = self.current_line_number
 
     def visit_statement_field(self, _n: _Node, children: _Children) -> None:
         field_type, _space, name = children
         assert isinstance(field_type, _serializable.SerializableType) and isinstance(name, str) and name
         self._flush_comment()
         self._statement_stream_processor.on_field(field_type, name)
+        self._last_attribute_line_number = self.current_line_number
 
     def visit_statement_padding_field(self, _n: _Node, children: _Children) -> None:
         void_type = children[0]
         assert isinstance(void_type, _serializable.VoidType)
         self._flush_comment()
         self._statement_stream_processor.on_padding_field(void_type)
+        self._last_attribute_line_number = self.current_line_number
 
     def visit_statement_service_response_marker(self, _n: _Node, _c: _Children) -> None:
         self._flush_comment()
